@@ -18,14 +18,16 @@ def serveFileFx (os : OS) (cfg : SCfg) (p : Path) : SResp × List Path :=
     | .ioError => (.tempFail .ioError, [p])
 
 def serveDirFx (os : OS) (cfg : SCfg) (fp : Path) : SResp × List Path :=
-  match findIndex os cfg fp cfg.indices with
-  | some ip => serveFileFx os cfg ip
-  | none =>
-    if cfg.listingOn then
-      match os.listing fp with
-      | some names => (.listing fp names, [])
-      | none => (.tempFail .listing, [])
-    else (.notFound, [])
+  if indexRaises os cfg fp cfg.indices then (.raised, [])
+  else
+    match findIndex os cfg fp cfg.indices with
+    | some ip => serveFileFx os cfg ip
+    | none =>
+      if cfg.listingOn then
+        match os.listing fp with
+        | some names => (.listing fp names, [])
+        | none => (.tempFail .listing, [])
+      else (.notFound, [])
 
 def handleFx (os : OS) (cfg : SCfg) (comps : List Name) (trailing : Bool) : SResp × List Path :=
   match os.resolve (cfg.root ++ comps) with
@@ -49,13 +51,16 @@ theorem serveFileFx_fst (os : OS) (cfg : SCfg) (p : Path) : (serveFileFx os cfg 
 
 theorem serveDirFx_fst (os : OS) (cfg : SCfg) (fp : Path) : (serveDirFx os cfg fp).1 = serveDir os cfg fp := by
   unfold serveDirFx serveDir
-  cases findIndex os cfg fp cfg.indices with
-  | some ip => exact serveFileFx_fst os cfg ip
-  | none =>
-    by_cases hl : cfg.listingOn = true
-    · simp only [if_pos hl]
-      cases os.listing fp <;> rfl
-    · simp only [if_neg hl]
+  by_cases hr : indexRaises os cfg fp cfg.indices = true
+  · simp only [if_pos hr]
+  · simp only [if_neg hr]
+    cases findIndex os cfg fp cfg.indices with
+    | some ip => exact serveFileFx_fst os cfg ip
+    | none =>
+      by_cases hl : cfg.listingOn = true
+      · simp only [if_pos hl]
+        cases os.listing fp <;> rfl
+      · simp only [if_neg hl]
 
 theorem handleFx_fst (os : OS) (cfg : SCfg) (comps : List Name) (trailing : Bool) :
     (handleFx os cfg comps trailing).1 = handle os cfg comps trailing := by
@@ -101,12 +106,14 @@ theorem serveDirFx_reads (os : OS) (cfg : SCfg) (fp : Path) :
     ReadsOk os (serveDirFx os cfg fp).1 (serveDirFx os cfg fp).2 := by
   unfold serveDirFx
   split
-  · exact serveFileFx_reads os cfg _
+  · exact Or.inl ⟨rfl, by intro _ _ h; cases h⟩
   · split
+    · exact serveFileFx_reads os cfg _
     · split
+      · split
+        · exact Or.inl ⟨rfl, by intro _ _ h; cases h⟩
+        · exact Or.inl ⟨rfl, by intro _ _ h; cases h⟩
       · exact Or.inl ⟨rfl, by intro _ _ h; cases h⟩
-      · exact Or.inl ⟨rfl, by intro _ _ h; cases h⟩
-    · exact Or.inl ⟨rfl, by intro _ _ h; cases h⟩
 
 theorem handleFx_reads (os : OS) (cfg : SCfg) (comps : List Name) (trailing : Bool) :
     ReadsOk os (handleFx os cfg comps trailing).1 (handleFx os cfg comps trailing).2 := by
